@@ -233,7 +233,7 @@ func classify(c Case) (bool, []string) {
 }
 
 func TestC08(t *testing.T) {
-	ev.Rapid(t, rec, "sessions", rec.Scale(2500, 120000), genCase, func(c Case) *ev.Failure {
+	ev.Rapid(t, rec, "sessions", rec.Scale(2500, 1500000), genCase, func(c Case) *ev.Failure {
 		nt, cl := classify(c)
 		rec.Case(ev.Hash(c), nt, cl...)
 		if len(c.Steps) <= 5 {
